@@ -765,6 +765,7 @@ def run_c12(ctx):
         scs.append({'sid': 'pes-random-%d' % i, 'kind': 'pes', 'part': 'random', 'seed': sd * 613 + i, 'n': 200 if quick else 1500})
     for i in range(6 if quick else 60):
         scs.append({'sid': 'pes-stream-%d' % i, 'kind': 'pes', 'part': 'stream', 'seed': sd * 419 + i, 'n': 6 if quick else 20})
+        scs.append({'sid': 'pes-remux-%d' % i, 'kind': 'pes', 'part': 'remux', 'seed': sd * 421 + i, 'n': 8 if quick else 30})
     return pipeline(
         ctx, 'Mon_C12', 'pes', scs,
         rule='header values: all 256 stream ids; all 2^8 combinations of the second flags byte x extension-flag subsets; the 64 combinations of the '
